@@ -1,8 +1,12 @@
 import EaselModel.Sqio.TrackLemmas
 /-! # What the bytes/residues-per-line tracker of `seebuf` guarantees (C07, C04)
 
-The tracker as repaired by 283ccd7 (`seebuf_linegeometry()`): events of a scan, one per line. -/
+The tracker as repaired by 283ccd7 (`seebuf_linegeometry()`): events of a scan, one per line (`Sqio/Fold.lean`: the batched
+bookkeeping of `seebuf` over buffers is the same as one update per line). `tracker_sound`: if a scan of ANY file ends with
+`rpl = p > 0`, `bpl = q > 0`, every record has the geometry `(q, p)`: each line followed by another line of its record has exactly
+`q` bytes and `p` residues, no line (last, only, unterminated) has more than `p` residues or more ignored bytes than a full line. -/
 namespace EaselModel.Sqio.Tracker
+open EaselModel.Sqio
 
 /-- the tracker-relevant events of a scan: a record header (`header_*` resets `prv*` to −1, `cur*` to 0), an end-of-line seen by
     `seebuf` with the line's bytes (newline included) and residues, and the end of `seebuf` on an unterminated stretch (the last
@@ -27,4 +31,322 @@ def events (recs : List (List (Int × Int))) : List Ev :=
 theorem run_append (t : Track) (a b : List Ev) : run t (a ++ b) = run (run t a) b := by
   simp [run, List.foldl_append]
 
+/-- the tracker is between two lines of a record: `cur*` = 0 and `prv*` describe the previous line `pl` of the record (none: −1) -/
+structure Ready (t : Track) (pl : Option (Int × Int)) : Prop where
+  cr : t.currpl = 0
+  cb : t.curbpl = 0
+  pr : t.prvrpl = match pl with | none => -1 | some l => l.2
+  pb : t.prvbpl = match pl with | none => -1 | some l => l.1
+  pw : ∀ l, pl = some l → 0 ≤ l.2 ∧ 1 ≤ l.1
+
+/-- closed form of one more line (`atEol`: terminated, `b` counts the newline) from a `Ready` state, before the `prv`/`cur` shift -/
+theorem lg_ready (t : Track) (b r : Int) (e : Bool) (hcr : t.currpl = 0) (hcb : t.curbpl = 0) (hb : 0 < b) (hr : 0 ≤ r) :
+    let u := (t.advance b r).lineGeometry e
+    let x := b - r - (if e then 1 else 0)
+    let R := Track.fullLine t.prvrpl t.prvbpl t.rpl
+    let B := Track.fullLine t.prvbpl t.prvrpl t.bpl
+    let M := if r > t.maxrpl then r else t.maxrpl
+    let N := if x > t.maxxpl then x else t.maxxpl
+    u.maxrpl = M ∧ u.maxxpl = N ∧
+    u.rpl = (if R > 0 ∧ B > 0 ∧ (M > R ∨ N > B - R - 1) then 0 else R) ∧
+    u.bpl = (if R > 0 ∧ B > 0 ∧ (M > R ∨ N > B - R - 1) then 0 else B) ∧
+    u.currpl = r ∧ u.curbpl = b ∧ u.prvrpl = t.prvrpl ∧ u.prvbpl = t.prvbpl := by
+  intro u x R B M N
+  generalize hv : t.advance b r = v
+  have a5 : v.currpl = r := by rw [← hv]; simp [Track.advance, hcr]
+  have a6 : v.curbpl = b := by rw [← hv]; simp [Track.advance, hcb]
+  have a1 : v.rpl = t.rpl := by rw [← hv]; rfl
+  have a2 : v.bpl = t.bpl := by rw [← hv]; rfl
+  have a3 : v.prvrpl = t.prvrpl := by rw [← hv]; rfl
+  have a4 : v.prvbpl = t.prvbpl := by rw [← hv]; rfl
+  have a7 : v.maxrpl = t.maxrpl := by rw [← hv]; rfl
+  have a8 : v.maxxpl = t.maxxpl := by rw [← hv]; rfl
+  have act : ¬(v.curbpl ≤ 0 ∨ v.currpl = -1) := by rw [a5, a6]; omega
+  have vR : v.R = R := by show Track.fullLine v.prvrpl v.prvbpl v.rpl = _; rw [a1, a3, a4]
+  have vB : v.Bq = B := by show Track.fullLine v.prvbpl v.prvrpl v.bpl = _; rw [a2, a3, a4]
+  have vM : v.mxR = M := by show (if v.currpl > v.maxrpl then v.currpl else v.maxrpl) = _; rw [a5, a7]
+  have vN : v.mxX e = N := by
+    show (if v.curbpl - v.currpl - (if e then 1 else 0) > v.maxxpl then v.curbpl - v.currpl - (if e then 1 else 0) else v.maxxpl) = _
+    rw [a5, a6, a8]
+  obtain ⟨g1, g2, g3, g4⟩ := lg_cur v e
+  have b1 := lg_rpl v e
+  have b2 := lg_bpl v e
+  have b3 := lg_maxrpl v e
+  have b4 := lg_maxxpl v e
+  simp only [act, if_false] at b1 b2 b3 b4
+  rw [vR, vB, vM, vN] at b1 b2
+  rw [vM] at b3
+  rw [vN] at b4
+  have hu : u = v.lineGeometry e := by show (t.advance b r).lineGeometry e = _; rw [hv]
+  rw [hu]
+  exact ⟨b3, b4, b1, b2, by rw [g1, a5], by rw [g2, a6], by rw [g3, a3], by rw [g4, a4]⟩
+
+/-- a line as (bytes, residues, ignored bytes: neither residue nor the newline) -/
+abbrev Line := Int × Int × Int
+/-- a terminated line given as (bytes incl. the newline, residues) -/
+def tl (l : Int × Int) : Line := (l.1, l.2, l.1 - l.2 - 1)
+/-- an unterminated line -/
+def ul (l : Int × Int) : Line := (l.1, l.2, l.1 - l.2)
+
+/-- what the tracker state knows about the lines seen so far (`lines`) and those of them that were followed by another line of
+    their record (`nl`) -/
+structure Good (t : Track) (lines nl : List Line) : Prop where
+  cov : ∀ l ∈ lines, l.2.1 ≤ t.maxrpl ∧ l.2.2 ≤ t.maxxpl
+  full : t.rpl > 0 → t.bpl > 0 → (∀ l ∈ nl, l.1 = t.bpl ∧ l.2.1 = t.rpl) ∧ t.maxrpl ≤ t.rpl ∧ t.maxxpl ≤ t.bpl - t.rpl - 1
+  fresh : t.rpl = -1 → nl = []
+  both : t.rpl = -1 ↔ t.bpl = -1
+
+theorem good_line (t : Track) (lines nl : List Line) (pl : Option (Int × Int)) (b r : Int) (e : Bool)
+    (hg : Good t lines nl) (hrd : Ready t pl) (hb : 0 < b) (h0 : 0 ≤ r) :
+    Good ((t.advance b r).lineGeometry e) (lines ++ [(b, r, b - r - (if e then 1 else 0))]) (nl ++ pl.toList.map tl) := by
+  obtain ⟨u1, u2, u3, u4, _, _, _, _⟩ := lg_ready t b r e hrd.cr hrd.cb hb h0
+  generalize (t.advance b r).lineGeometry e = u at *
+  generalize b - r - (if e then 1 else 0) = x at *
+  have hM : t.maxrpl ≤ (if r > t.maxrpl then r else t.maxrpl) ∧ r ≤ (if r > t.maxrpl then r else t.maxrpl) := by
+    split <;> omega
+  have hN : t.maxxpl ≤ (if x > t.maxxpl then x else t.maxxpl) ∧ x ≤ (if x > t.maxxpl then x else t.maxxpl) := by
+    split <;> omega
+  generalize (if r > t.maxrpl then r else t.maxrpl) = M at *
+  generalize (if x > t.maxxpl then x else t.maxxpl) = N at *
+  obtain ⟨cov, full, fresh, both⟩ := hg
+  have hpr := hrd.pr
+  have hpb := hrd.pb
+  have hpw := hrd.pw
+  -- the widths after the "previous line is a full line" test, and what they say about the previous line
+  have hRB : (pl = none → Track.fullLine t.prvrpl t.prvbpl t.rpl = t.rpl ∧ Track.fullLine t.prvbpl t.prvrpl t.bpl = t.bpl) ∧
+      (∀ l, pl = some l →
+        (t.rpl = -1 → Track.fullLine t.prvrpl t.prvbpl t.rpl = l.2 ∧ Track.fullLine t.prvbpl t.prvrpl t.bpl = l.1) ∧
+        (t.rpl ≠ -1 → (Track.fullLine t.prvrpl t.prvbpl t.rpl = t.rpl ∧ l.2 = t.rpl ∨ Track.fullLine t.prvrpl t.prvbpl t.rpl = 0) ∧
+                      (Track.fullLine t.prvbpl t.prvrpl t.bpl = t.bpl ∧ l.1 = t.bpl ∨ Track.fullLine t.prvbpl t.prvrpl t.bpl = 0))) := by
+    constructor
+    · intro h; subst h; simp only at hpr hpb; unfold Track.fullLine; rw [hpr]; simp
+    · intro l h; subst h; simp only at hpr hpb
+      have := hpw l rfl
+      unfold Track.fullLine; rw [hpr, hpb]
+      constructor
+      · intro h1; have h2 := both.mp h1; rw [h1, h2]; simp; omega
+      · intro h1; have h2 : t.bpl ≠ -1 := fun h => h1 (both.mpr h)
+        constructor <;> omega
+  generalize Track.fullLine t.prvrpl t.prvbpl t.rpl = R at *
+  generalize Track.fullLine t.prvbpl t.prvrpl t.bpl = B at *
+  by_cases hbad : R > 0 ∧ B > 0 ∧ (M > R ∨ N > B - R - 1)
+  · rw [if_pos hbad] at u3 u4
+    refine ⟨?_, ?_, ?_, ?_⟩
+    · intro l hl
+      rw [List.mem_append, List.mem_singleton] at hl
+      rcases hl with hl | rfl
+      · have := cov l hl; omega
+      · simp only; omega
+    · intro hp; omega
+    · intro h1; omega
+    · omega
+  · rw [if_neg hbad] at u3 u4
+    refine ⟨?_, ?_, ?_, ?_⟩
+    · intro l hl
+      rw [List.mem_append, List.mem_singleton] at hl
+      rcases hl with hl | rfl
+      · have := cov l hl; omega
+      · simp only; omega
+    · intro hp hq
+      refine ⟨?_, by omega, by omega⟩
+      intro l hl
+      rw [List.mem_append] at hl
+      cases pl with
+      | none =>
+        have := hRB.1 rfl
+        simp at hl
+        have f := (full (by omega) (by omega)).1 l hl
+        omega
+      | some l0 =>
+        have k := hRB.2 l0 rfl
+        by_cases h1 : t.rpl = -1
+        · have := fresh h1
+          subst this
+          simp [tl] at hl
+          subst hl
+          have := k.1 h1
+          simp only; omega
+        · have k2 := k.2 h1
+          have h2 : t.bpl ≠ -1 := fun h => h1 (both.mpr h)
+          rcases hl with hl | hl
+          · have f := (full (by omega) (by omega)).1 l hl
+            omega
+          · simp [tl] at hl
+            subst hl
+            simp only; omega
+    · intro h1
+      cases pl with
+      | none =>
+        have := hRB.1 rfl
+        simp
+        exact fresh (by omega)
+      | some l0 =>
+        have k := hRB.2 l0 rfl
+        have := hpw l0 rfl
+        by_cases h1' : t.rpl = -1
+        · have := k.1 h1'; omega
+        · have := k.2 h1'; omega
+    · cases pl with
+      | none => have := hRB.1 rfl; omega
+      | some l0 =>
+        have k := hRB.2 l0 rfl
+        have := hpw l0 rfl
+        by_cases h1' : t.rpl = -1
+        · have := k.1 h1'; omega
+        · have := k.2 h1'
+          have h2 : t.bpl ≠ -1 := fun h => h1' (both.mpr h)
+          omega
+
+theorem good_shift (t : Track) (lines nl : List Line) (a b c d : Int) (h : Good t lines nl) :
+    Good { t with prvrpl := a, prvbpl := b, currpl := c, curbpl := d } lines nl :=
+  ⟨h.cov, h.full, h.fresh, h.both⟩
+
+/-- the lines a scan of terminated lines `ls` adds to the "followed by another line" list, `pl` being the line before them -/
+def adds (pl : Option (Int × Int)) : List (Int × Int) → List Line
+  | [] => []
+  | l :: ls => pl.toList.map tl ++ adds (some l) ls
+def lastOf (pl : Option (Int × Int)) : List (Int × Int) → Option (Int × Int)
+  | [] => pl
+  | l :: ls => lastOf (some l) ls
+
+theorem adds_lastOf (pl : Option (Int × Int)) (ls : List (Int × Int)) :
+    adds pl ls ++ (lastOf pl ls).toList.map tl = pl.toList.map tl ++ ls.map tl := by
+  induction ls generalizing pl with
+  | nil => simp [adds, lastOf]
+  | cons l ls ih => simp [adds, lastOf, ih, List.append_assoc]
+
+theorem lastOf_some (x : Int × Int) (ls : List (Int × Int)) : ∃ y, lastOf (some x) ls = some y := by
+  induction ls generalizing x with
+  | nil => exact ⟨x, rfl⟩
+  | cons l ls ih => exact ih l
+
+theorem lastOf_none (ls : List (Int × Int)) (h : lastOf none ls = none) : ls = [] := by
+  cases ls with
+  | nil => rfl
+  | cons l ls => obtain ⟨y, hy⟩ := lastOf_some l ls; simp [lastOf, hy] at h
+
+/-- the terminated lines of a record, one `onEol` each -/
+theorem good_lines (ls : List (Int × Int)) : ∀ (t : Track) (lines nl : List Line) (pl : Option (Int × Int)),
+    Good t lines nl → Ready t pl → (∀ l ∈ ls, 0 ≤ l.2 ∧ l.2 + 1 ≤ l.1) →
+    Good (ls.foldl (fun t l => t.onEol l.1 l.2) t) (lines ++ ls.map tl) (nl ++ adds pl ls) ∧
+    Ready (ls.foldl (fun t l => t.onEol l.1 l.2) t) (lastOf pl ls) := by
+  induction ls with
+  | nil => intro t lines nl pl hg hr _; simpa [adds, lastOf] using ⟨hg, hr⟩
+  | cons l ls ih =>
+    intro t lines nl pl hg hr hw
+    have hl := hw l (by simp)
+    have g1 := good_line t lines nl pl l.1 l.2 true hg hr (by omega) hl.1
+    obtain ⟨_, _, _, _, c5, c6, _, _⟩ := lg_ready t l.1 l.2 true hr.cr hr.cb (by omega) hl.1
+    have g2 : Good (t.onEol l.1 l.2) (lines ++ [tl l]) (nl ++ pl.toList.map tl) := by
+      unfold Track.onEol
+      exact good_shift _ _ _ _ _ _ _ (by simpa [tl] using g1)
+    have r2 : Ready (t.onEol l.1 l.2) (some l) := by
+      unfold Track.onEol
+      exact ⟨rfl, rfl, c5, c6, fun l' h => by cases h; omega⟩
+    have := ih (t.onEol l.1 l.2) _ _ (some l) g2 r2 (fun l' h' => hw l' (by simp [h']))
+    simpa [adds, lastOf, List.append_assoc] using this
+
+/-- one record as the scan sees it: terminated lines (bytes incl. the newline, residues), then possibly an unterminated last stretch
+    (the record ends at EOF or at the EOD character without a newline) -/
+structure Rec where
+  lines : List (Int × Int)
+  last : Option (Int × Int)
+
+def Rec.WF (rc : Rec) : Prop :=
+  (∀ l ∈ rc.lines, 0 ≤ l.2 ∧ l.2 + 1 ≤ l.1) ∧ (∀ l, rc.last = some l → 0 ≤ l.2 ∧ l.2 ≤ l.1 ∧ 0 < l.1)
+
+def Rec.events (rc : Rec) : List Ev :=
+  Ev.hdr :: rc.lines.map (fun l => Ev.eol l.1 l.2) ++ (match rc.last with | none => [] | some l => [Ev.stop l.1 l.2])
+
+/-- all lines of the record: (bytes, residues, ignored bytes) -/
+def Rec.all (rc : Rec) : List Line := rc.lines.map tl ++ rc.last.toList.map ul
+
+/-- the tracker over one record -/
+def scanRec (t : Track) (rc : Rec) : Track := run t rc.events
+
+theorem run_eols (ls : List (Int × Int)) (t : Track) :
+    run t (ls.map (fun l => Ev.eol l.1 l.2)) = ls.foldl (fun t l => t.onEol l.1 l.2) t := by
+  induction ls generalizing t with
+  | nil => rfl
+  | cons l ls ih => simp only [List.map_cons, run, List.foldl_cons, step] at *; exact ih _
+
+theorem good_rec (t : Track) (lines nl : List Line) (rc : Rec) (hg : Good t lines nl) (hw : rc.WF) :
+    Good (scanRec t rc) (lines ++ rc.all) (nl ++ rc.all.dropLast) := by
+  obtain ⟨w1, w2⟩ := hw
+  unfold scanRec Rec.events
+  rw [show (Ev.hdr :: rc.lines.map (fun l => Ev.eol l.1 l.2) ++ (match rc.last with | none => [] | some l => [Ev.stop l.1 l.2]))
+        = [Ev.hdr] ++ (rc.lines.map (fun l => Ev.eol l.1 l.2) ++ (match rc.last with | none => [] | some l => [Ev.stop l.1 l.2])) from rfl,
+      run_append, run_append, run_eols]
+  have h0 : Good (run t [Ev.hdr]) lines nl := good_shift _ _ _ _ _ _ _ hg
+  have r0 : Ready (run t [Ev.hdr]) none := ⟨rfl, rfl, rfl, rfl, fun l h => by cases h⟩
+  obtain ⟨g1, r1⟩ := good_lines rc.lines _ _ _ none h0 r0 w1
+  generalize rc.lines.foldl (fun t l => t.onEol l.1 l.2) (run t [Ev.hdr]) = t1 at *
+  have hal := adds_lastOf none rc.lines
+  simp only [Option.toList_none, List.map_nil, List.nil_append] at hal
+  unfold Rec.all
+  cases hlast : rc.last with
+  | none =>
+    simp only [Option.toList_none, List.map_nil, List.append_nil]
+    have : (rc.lines.map tl).dropLast = adds none rc.lines := by
+      rw [← hal]
+      cases h : lastOf none rc.lines with
+      | none => rw [lastOf_none rc.lines h]; rfl
+      | some x => simp
+    rw [this]
+    exact g1
+  | some l =>
+    have wl := w2 l hlast
+    simp only [Option.toList_some, List.map_cons, List.map_nil]
+    have g2 := good_line t1 _ _ _ l.1 l.2 false g1 r1 wl.2.2 wl.1
+    have : (rc.lines.map tl ++ [ul l]).dropLast = adds none rc.lines ++ (lastOf none rc.lines).toList.map tl := by
+      rw [List.dropLast_concat, hal]
+    rw [this, ← List.append_assoc, ← List.append_assoc]
+    simpa [run, step, Track.onStop, ul] using g2
+
+/-- the tracker over a whole file, from the state `esl_sqfile_Open` leaves -/
+def scanFile (recs : List Rec) : Track := recs.foldl scanRec {}
+
+theorem scanFile_eq_run (recs : List Rec) : scanFile recs = run {} (recs.flatMap Rec.events) := by
+  unfold scanFile
+  generalize ({} : Track) = t
+  induction recs generalizing t with
+  | nil => rfl
+  | cons rc rs ih => rw [List.foldl_cons, List.flatMap_cons, run_append, ih]; rfl
+
+theorem good_file (recs : List Rec) (hw : ∀ rc ∈ recs, rc.WF) :
+    Good (scanFile recs) (recs.flatMap Rec.all) (recs.flatMap fun rc => rc.all.dropLast) := by
+  unfold scanFile
+  have h0 : Good ({} : Track) [] [] := ⟨by simp, by decide, by simp, by decide⟩
+  suffices ∀ (t : Track) (lines nl : List Line), Good t lines nl →
+      Good (recs.foldl scanRec t) (lines ++ recs.flatMap Rec.all) (nl ++ recs.flatMap fun rc => rc.all.dropLast) by
+    simpa using this {} [] [] h0
+  induction recs with
+  | nil => intro t lines nl h; simpa using h
+  | cons rc rs ih =>
+    intro t lines nl h
+    have g := good_rec t lines nl rc h (hw rc (by simp))
+    have := ih (fun r hr => hw r (by simp [hr])) _ _ _ g
+    simpa [List.append_assoc] using this
+
+/-- the line geometry `bpl = q`, `rpl = p` promises for a record: every line that is followed by another line of the record has
+    exactly `q` bytes and `p` residues; no line has more than `p` residues or more ignored bytes than a full line (`q − p − 1`) -/
+def Geom (q p : Int) (rc : Rec) : Prop :=
+  (∀ l ∈ rc.all.dropLast, l.1 = q ∧ l.2.1 = p) ∧ (∀ l ∈ rc.all, l.2.1 ≤ p ∧ l.2.2 ≤ q - p - 1)
+
+/-- **Soundness of the line-geometry tracker (full).** If a scan of any file ends with `rpl = p > 0` and `bpl = q > 0`, EVERY
+    record of the file has the geometry `(q, p)`. -/
+theorem tracker_sound (recs : List Rec) (hw : ∀ rc ∈ recs, rc.WF) (p q : Int) (hp : 0 < p) (hq : 0 < q)
+    (hr : (scanFile recs).rpl = p) (hb : (scanFile recs).bpl = q) : ∀ rc ∈ recs, Geom q p rc := by
+  have g := good_file recs hw
+  obtain ⟨f1, f2, f3⟩ := g.full (by omega) (by omega)
+  intro rc hrc
+  constructor
+  · intro l hl
+    have := f1 l (List.mem_flatMap.mpr ⟨rc, hrc, hl⟩)
+    rw [hr, hb] at this; exact this
+  · intro l hl
+    have := g.cov l (List.mem_flatMap.mpr ⟨rc, hrc, hl⟩)
+    rw [hr] at f2
+    rw [hr, hb] at f3
+    omega
 end EaselModel.Sqio.Tracker
